@@ -180,7 +180,8 @@ func TestCheck(t *testing.T) {
 	for i := range cfgs {
 		buckets[0] = append(buckets[0], node{cfg: int32(i)})
 	}
-	var nontrivial int64
+	var nontrivial, maxKV int64
+	r.Set("spin_guard_limit_store_calls_per_step", int64(spinLimit))
 	sampled := map[string]int{}
 	stop := false
 	t0 := time.Now()
@@ -221,6 +222,13 @@ func TestCheck(t *testing.T) {
 					counts[nd.cfg].transitions++
 					r.Add("evaluations", 1)
 					for k, v := range res.stats {
+						if k == "max_kv_calls_in_one_step" {
+							if v > maxKV {
+								maxKV = v
+								r.Set("max_store_calls_in_one_environment_step", v)
+							}
+							continue
+						}
 						r.Add("last_step_"+k, v)
 					}
 					for _, v := range res.viols {
